@@ -79,6 +79,9 @@ def build_algorithms(spec, shared=None):
                                  assign=spec.get("static_plan"))
     s = spec["scheduling"]
     k = s["kind"]
+    if shared is not None and shared.get("sched") is not None:
+        # the same algorithm object handed to a second Simulation (a sweep script)
+        return plan, shared["sched"], delay
     if k == "batch":
         split = s.get("split")
         if split:
@@ -96,6 +99,8 @@ def build_algorithms(spec, shared=None):
         sched = hp.Adversary(s.get("mode", "random"), s.get("seed", 0))
     else:
         raise ValueError(k)
+    if shared is not None and shared.get("share_sched"):
+        shared["sched"] = sched
     return plan, sched, delay
 
 
